@@ -175,6 +175,19 @@ CLAIMED["C18"] = (
     "t-wise coverage, not the full product (~1e6 combinations); interactions of 4+ options are only sampled. Undocumented values are not asserted either way.",
     "DESIGN.md §2 C18",
 )
+CLAIMED["C03"] = (
+    "exploration",
+    "property-based testing with injected randomness (every gamma/normal/uniform variate scripted by Hypothesis) against a reference kernel whose reversibility is closed form + statistical paired-difference invariance test through the real parallel_mcmc from exact draws (two-stage z-test)",
+    "(a) For generated runner states (d<=4, K<=3, SPD scales to condition 1e4, nu in [0.5,1e6], boundary subsets, step sizes, beta) the proposal "
+    "must equal the reference formula for the scripted variates, the scale variable must be requested from the right Gamma law, the acceptance factor "
+    "must equal the Student-t log-density ratio (cross-checked with SciPy), one full parallel_mcmc iteration must equal the reference Metropolis update "
+    "with u, x, logL and blobs moved together, and the reference proposal itself is checked to satisfy t(u)q(u,u') = t(u')q(u',u) in closed form - "
+    "so (a) pins the kernel to one whose detailed balance in the interior is a two-line argument. (b) M=2e4..2e5 particles start exactly in generated "
+    "tempered targets (truncated normals, von Mises, flat; hard / periodic / reflective coordinates; labels independent of position or assigned by "
+    "position) and take the kernel's steps; paired differences of coordinates, squares, products, circular moments and bin indicators must average to zero.",
+    "'For every pair of states' is covered by differential testing against a reference plus a short mathematical argument, not by enumeration; the statistical part has a resolution (about 6 standard errors at the stated M). K1 and K3 are recorded findings (classified by kernel+folding, resp. by label scheme + measured cluster-crossing rate).",
+    "DESIGN.md §2 C03",
+)
 
 ALL = [f"C{i:02d}" for i in range(1, 21)]
 
